@@ -578,7 +578,7 @@ const API_DEFINES: &[(&str, &str)] = &[("DEF", "1"), ("DEF", "a b"), ("DEF", "")
 pub fn plan(rng: &mut Rng, scale: u64, thorough: bool, repo: &str, hist: &mut Hist) -> Vec<Req> {
     let mut specs: Vec<String> = Vec::new();
     let per = |n: u64| n * scale;
-    for (kind, n) in [("bytes", 100u64), ("toks", 180), ("rep", 140), ("gram", 200), ("gmut", 120), ("feat", 260), ("prog", 40), ("pmut", 50)] {
+    for (kind, n) in [("bytes", 100u64), ("toks", 170), ("rep", 130), ("gram", 180), ("gmut", 110), ("feat", 220), ("prog", 40), ("pmut", 50)] {
         for _ in 0..per(n) {
             specs.push(format!("{}:{}", kind, rng.next() >> 20));
         }
@@ -591,7 +591,7 @@ pub fn plan(rng: &mut Rng, scale: u64, thorough: bool, repo: &str, hist: &mut Hi
         hist.add(&format!("cat/syn/{}", c));
         specs.push(format!("synone:{}", k));
     }
-    for (kind, n) in [("syn", 220u64), ("synmut", 80)] {
+    for (kind, n) in [("syn", 180u64), ("synmut", 60)] {
         for _ in 0..per(n) {
             let seed = rng.next() >> 20;
             for c in &gen_syn(&mut Rng::new(seed)).cats {
@@ -601,7 +601,7 @@ pub fn plan(rng: &mut Rng, scale: u64, thorough: bool, repo: &str, hist: &mut Hi
         }
     }
     // typed constant expressions in every constant context (typer/src/evaluator.rs)
-    for _ in 0..per(260) {
+    for _ in 0..per(200) {
         let seed = rng.next() >> 20;
         for c in &gen_cx(&mut Rng::new(seed)).cats {
             hist.add(&format!("cat/cx/{}", c));
@@ -609,7 +609,7 @@ pub fn plan(rng: &mut Rng, scale: u64, thorough: bool, repo: &str, hist: &mut Hi
         specs.push(format!("cx:{}", seed));
     }
     // preprocessor-grammar programs (several files + their own API defines) and their token-level mutations
-    for (kind, n) in [("pp", 260u64), ("ppmut", 120)] {
+    for (kind, n) in [("pp", 220u64), ("ppmut", 100)] {
         for _ in 0..per(n) {
             let seed = rng.next() >> 20;
             let p = if kind == "pp" { gen_pp(&mut Rng::new(seed)) } else { gen_pp_mutated(&mut Rng::new(seed)) };
